@@ -8,10 +8,10 @@ from common import sh2
 LEVEL = "proof"
 MANIFEST = {
     "technique": "Coq proof over a hand-written Gallina model of the box codec (header, container recursion, unknown boxes, "
-                 "16 leaf kinds) + differential correspondence (extracted OCaml vs Go) + failing-input search on all "
+                 "38 leaf box types) + differential correspondence (extracted OCaml vs Go) + failing-input search on all "
                  "registered box types",
     "level_text": "PROOF for the modelled universe (coq/c01/C01Theorems.v): header round trip both ways; for each of the leaf "
-                  "kinds ftyp styp free skip mdat mfhd tfhd tfdt trun mvhd tkhd sidx trex mdhd hdlr stts, everything the "
+                  "kinds ftyp styp free skip mdat mfhd tfhd tfdt trun mvhd tkhd sidx trex mdhd hdlr stts stsc stsz stco co64 stss sdtp ctts elst saiz saio sbgp prft tenc frma vmhd smhd nmhd sthd mfro mehd tfra pssh, everything the "
                   "decoder accepts is reproduced from the decoded value plus the captured reserved bytes (C01_leaf_lossless_*); "
                   "C01_tree: every slice accepted by the model of DecodeBoxSR (generic/typed pure containers moov trak mdia minf "
                   "stbl moof traf mvex dinf edts udta sinf schi mfra tref, unknown boxes, the leaves above, any nesting) whose "
@@ -28,7 +28,8 @@ MANIFEST = {
 DONTCARE = os.path.join(common.ROOT, "c01_dontcare.json")
 WHAT = {("mvhd", 70): "reserved(10) + matrix(36) + pre_defined(24)", ("tkhd", 4): "reserved(4)", ("tkhd", 8): "reserved(8)",
         ("tkhd", 38): "reserved(2) + matrix(36)", ("sidx", 2): "reserved(2)", ("mdhd", 2): "pre_defined(2)",
-        ("hdlr", 12): "reserved(12)"}
+        ("hdlr", 12): "reserved(12)", ("smhd", 2): "reserved(2)", ("tenc", 2): "reserved(8) reserved(8)",
+        ("tenc", 1): "reserved(8)", ("tfra", 3): "reserved(26): the three bytes that are entirely reserved"}
 
 
 def build(ctx):
